@@ -237,15 +237,17 @@ class MLMCPath(MCPath):
         path_coarse = path[PT.CP, ...]
         jump_path_fine = jump_path[PT.FP, ...]
         jump_path_coarse = jump_path[PT.CP, ...]
+        # a path-dependent payoff keeps what it saw of the last processed path (barrier flag):
+        # value each path right after it has been processed
         payoff_underlying_from_fp = product.underlying_value(
             times, path_fine, jump_path_fine
         )
+        payoff_fine = product(payoff_underlying_from_fp)
         payoff_underlying_from_cp = product.underlying_value(
             times, path_coarse, jump_path_coarse
         )
-        self.payoff = np.array(
-            [product(payoff_underlying_from_fp), product(payoff_underlying_from_cp)]
-        )
+        payoff_coarse = product(payoff_underlying_from_cp)
+        self.payoff = np.array([payoff_fine, payoff_coarse])
         self.process_spot_level_l(path_fine, path_coarse)
         self.payoff_control_variates = control_variates.process_mlmc(
             times,
